@@ -834,9 +834,18 @@ class StmtMixin:
                 if isinstance(n, ast.Name):
                     names.discard(n.id)
         fresh_rids = set()
+        from .vals import POISON
         for name in sorted(names):
             v = st.lookup(name)
             if v is None or isinstance(v, (VFunc, VClass)):
+                continue
+            if name in spec.get('scratch', ()):
+                # declared loop-scratch: re-assigned before any use in every iteration (with values of another type);
+                # poisoned at the head, so a read before the assignment aborts the proof instead of being unsound
+                fid = st.fid
+                while fid is not None and name not in st.frames[fid]:
+                    fid = st.frames[fid].get('__parent__')
+                st.frames[fid][name] = POISON
                 continue
             fid = st.fid
             while fid is not None and name not in st.frames[fid]:
@@ -893,9 +902,39 @@ class StmtMixin:
                     continue
                 if fr2.get(name) is not v and name not in names:
                     raise Unsupported("loop at line %s rebinds %s outside its havoc set" % (node.lineno, name))
+                v2 = fr2.get(name)
+                if isinstance(node, ast.For) and any(isinstance(n, ast.Name) and n.id == name for n in ast.walk(node.target)):
+                    continue        # the loop variable is bound anew in every iteration
+                if v.__class__.__name__ == 'VPoison':
+                    continue
+                if v2 is not None and v2 is not v and not isinstance(v, (VFunc, VClass)):
+                    # soundness net: the value at the loop head was havocked *within its type*; a body path that leaves
+                    # a value of another shape (None vs object, int vs list ...) would not be covered by the head state
+                    try:
+                        t1, t2 = self.shape_of(v, head), self.shape_of(v2, end)
+                    except TypeError:
+                        t1 = t2 = None
+                    if t1 != t2:
+                        raise Unsupported("loop at line %s rebinds %s with a different type (%s -> %s): declare it in "
+                                          "'locals' (e.g. Opt[...])" % (node.lineno, name, t1, t2))
         for g, v in head.ghost.items():
             if end.ghost.get(g) is not v and g not in ghosts and g != '__yield__':
                 raise Unsupported("loop at line %s changes ghost %s outside its havoc set" % (node.lineno, g))
+
+    def shape_of(self, v, st):
+        if isinstance(v, VRef):
+            h = st.heap[v.rid]
+            return ('list',) if isinstance(h, HList) else ('dict',) if isinstance(h, HDict) else ('rec', h.cls)
+        if v.__class__.__name__ == 'VUnb':
+            return self.shape_of(v.val, st)
+        if isinstance(v, VExc):
+            return ('exc',)
+        if isinstance(v, (VFunc, VClass)):
+            return ('callable',)
+        t = type_of_val(v, st)
+        if t[0] in ('int', 'bool'):
+            return ('int',)
+        return t
 
     def havoc_val(self, v, name, st):
         if v.__class__.__name__ == 'VUnb':
